@@ -283,9 +283,8 @@ func H_TreeLayout() {
 			hasList = true
 		}
 	}
-	if dfn == "" || !hasList { // (a value list under a default field is C11's known finding)
-		same = rtAnd(same, matchTree(e1, t, dfn))
-	}
+	_ = hasList
+	same = rtAnd(same, matchTree(e1, t, dfn))
 	rtAssert("variant-same-tree", same)
 	rtReach("end")
 }
